@@ -529,6 +529,12 @@ func (s *store) GC(ctx context.Context, keep int) (int64, error) {
 	w := s.w
 	g := hx.GoID()
 	w.mu.Lock()
+	if r, ok := w.runOfGo[g]; ok && w.gcHook != nil {
+		hook := w.gcHook
+		w.mu.Unlock()
+		hook(r)
+		w.mu.Lock()
+	}
 	defer w.mu.Unlock()
 	if r, ok := w.runOfGo[g]; ok {
 		rs := w.runs[r]
